@@ -934,7 +934,36 @@ def _upgrade(ctx, prog):
         # the helper may merge in place and return nothing: judged by the
         # sources of what is written, helper looked through
         e2e, why_ = _upgrade_sources(prog)
-        if e2e is None:
+        never = False
+        if e2e is None and not wr:
+            # no settings writer is called at all. With every helper looked
+            # through: does any file-creating call get the settings path?
+            deep = Interp(prog, max_depth=4).run(f)
+            sinks = list(find_sinks(deep)) + [
+                (e_, e_.data["args"][0], "write_atomic")
+                for e_ in deep.of_kind("call")
+                if (e_.data.get("name") or "").endswith(
+                    ("write_atomic", "write_to_json_file"))
+                and e_.data["args"]]
+            to_settings = [s_ for s_ in sinks if any(
+                x.op in ("global", "named") and
+                str(x.args[0]).endswith("DEFAULT_PATH")
+                for x in s_[1].walk())]
+            to_version = [s_ for s_ in sinks if any(
+                x.op in ("global", "named") and
+                str(x.args[0]).endswith("USER_ASSETS_VERSION_PATH")
+                for x in s_[1].walk())]
+            opaque = [s_ for s_ in sinks if s_ not in to_settings and
+                      s_ not in to_version]
+            never = bool(to_version) and not to_settings and not opaque
+        if never:
+            ctx.ob("C18.4", m[0], False,
+                   "upgrade: the merge result is computed and the new "
+                   "version is recorded, but nothing writes the settings "
+                   "file — the missing default keys are never added and the "
+                   "recorded version keeps the upgrade from running again",
+                   key="C18.4:upgrade-written")
+        elif e2e is None:
             ctx.undecidable("C18.4", wr[0] if wr else f, f"upgrade: what is "
                             f"written is not the merge call's result and "
                             f"its sources are not decided ({why_})")
@@ -1357,6 +1386,11 @@ def _token_windows(ctx, prog):
                key=f"C18.10:{fname}:token-positions")
 
 
+def _relpath(prog, m: str) -> str:
+    mod = prog.modules[m]
+    return getattr(mod, "relpath", None) or m.replace(".", "/") + ".py"
+
+
 def _parser_types(ctx, prog):
     """C18.9: merge_config injects the raw JSON values of a config file into
     the namespace, bypassing argparse. 'A generated config has the same
@@ -1371,7 +1405,7 @@ def _parser_types(ctx, prog):
     bad = [(m, n, o, parse_time_transform(k)) for m, n, o, k in args_
            if parse_time_transform(k)]
     for m, n, o, why in bad:
-        ctx.ob("C18.9", f"{getattr(prog.modules[m], 'path', m)}:{n.lineno}", False,
+        ctx.ob("C18.9", f"{_relpath(prog, m)}:{n.lineno}", False,
                f"{m}: option {o or '?'} is converted while parsing "
                f"({why}); the same option given through a -c config file "
                f"reaches run() unconverted, so a generated config no longer "
